@@ -67,10 +67,11 @@ theorem content_excluded_escape_word :
       some (false, [.ident (str "a") none, .ident (str "b") none, .ident (str "c") none],
                    [.ident (str "a") none, .ident (str "b") none, .str (str "c")]) := by decide +kernel
 
-/-- excluded shape, current code: the quotes of a quoted placeholder name are dropped -/
-theorem content_excluded_quoted_placeholder :
+/-- a quoted placeholder name keeps its quotes (since fix 736fcf6; before, `:"x"` printed `:x` and the
+quoted identifier came back unquoted).  The shape is still outside `printable` (first component false). -/
+theorem content_quoted_placeholder_kept :
     contentIO [.sym .Colon, .word (str "x") (some 34) none] =
-      some (false, [.ident (str "x") (some 34)], [.ident (str "x") none]) := by decide +kernel
+      some (false, [.ident (str "x") (some 34)], [.ident (str "x") (some 34)]) := by decide +kernel
 end Witnesses
 
 -- ------------------------------------------------------------------ statements loop
